@@ -217,7 +217,29 @@ def single_assign_locals(fn: ast.FunctionDef) -> dict[str, ast.expr]:
                 elif isinstance(nm, ast.Name) and isinstance(nm.ctx, ast.Store):
                     counts[nm.id] = counts.get(nm.id, 0) + 2  # tuple targets: not inlined
     params = set(params_of(fn, skip_self=False))
-    return {k: v for k, v in vals.items() if counts.get(k) == 1 and k not in params}
+    out = {k: v for k, v in vals.items() if counts.get(k) == 1 and k not in params}
+    # a, b, c = seq[lo:hi]  /  a, b = seq  /  a, b = (x, y): element-wise definitions
+    for n in walk_no_nested(fn):
+        if isinstance(n, ast.Assign) and len(n.targets) == 1 and isinstance(n.targets[0], (ast.Tuple, ast.List)):
+            tg = n.targets[0].elts
+            if not all(isinstance(t, ast.Name) for t in tg):
+                continue
+            names = [t.id for t in tg]  # type: ignore[attr-defined]
+            if any(counts.get(nm) != 2 or nm in params for nm in names):
+                continue
+            v = n.value
+            if isinstance(v, (ast.Tuple, ast.List)) and len(v.elts) == len(names):
+                for nm, el in zip(names, v.elts):
+                    out[nm] = el
+            elif isinstance(v, ast.Subscript) and isinstance(v.slice, ast.Slice) and v.slice.step is None:
+                lo = v.slice.lower.value if isinstance(v.slice.lower, ast.Constant) else 0 if v.slice.lower is None else None
+                if isinstance(lo, int):
+                    for i, nm in enumerate(names):
+                        out[nm] = ast.Subscript(value=v.value, slice=ast.Constant(lo + i), ctx=ast.Load())
+            elif isinstance(v, ast.Name):
+                for i, nm in enumerate(names):
+                    out[nm] = ast.Subscript(value=v, slice=ast.Constant(i), ctx=ast.Load())
+    return out
 
 
 class _Inliner(ast.NodeTransformer):
